@@ -12,7 +12,11 @@
 EXTENDS Integers, FiniteSets, TLC
 
 Vars == {"COOKIE", "MIN", "MAX", "VERS", "CERT", "MUX", "GROUP", "DIR", "HOSTX"}
-Cfgs == [automtls : BOOLEAN, mux : BOOLEAN, group : BOOLEAN, runner : BOOLEAN, skip : BOOLEAN]
+\* relaunch: the ClientConfig has already been used for an earlier launch (a restart with the same
+\* config struct, in which the first Start stored its generated TLS configuration); presettls: the
+\* caller supplied a TLSConfig of its own.  Neither may change what the plugin is given.
+Cfgs == [automtls : BOOLEAN, mux : BOOLEAN, group : BOOLEAN, runner : BOOLEAN, skip : BOOLEAN,
+         relaunch : BOOLEAN, presettls : BOOLEAN]
 Hosts == [Vars -> BOOLEAN]          \* TRUE: the host's own environment has a (conflicting) value
 
 \* does this client set the variable?
@@ -44,6 +48,9 @@ ENext == ~done /\ done' = TRUE /\ UNCHANGED <<cfg, host>>
 ESpec == EInit /\ [][ENext]_ev
 \* the code's rule yields only permitted sources, for every configuration and host environment
 SourceAllowed == \A v \in Vars : Source(v, cfg, host) \in Allowed(v, cfg, host)
+\* what the plugin is given does not depend on the config's history or on a caller-supplied TLSConfig
+HistoryIndependent == \A v \in Vars : \A r, p \in BOOLEAN :
+                        Source(v, cfg, host) = Source(v, [cfg EXCEPT !.relaunch = r, !.presettls = p], host)
 \* the negotiation variables never depend on the host's environment
 Independent == \A v \in {"COOKIE", "MIN", "MAX", "VERS", "CERT", "MUX"} :
                  Source(v, cfg, host) = Source(v, cfg, [x \in Vars |-> FALSE])
